@@ -224,10 +224,11 @@ Qed.
 (* ---------- events ---------- *)
 Definition ev_listener (e : event) : option N :=
   match e with Notified l _ _ _ => Some l | Errored => None end.
-Definition ev_ok (e : event) : bool := match e with Notified _ _ _ ok => ok | Errored => true end.
+Definition ev_ok (e : event) : bool := match e with Notified _ _ _ KReject => false | _ => true end.
+Definition ev_nested (e : event) : bool := match e with Notified _ _ _ KNested => true | _ => false end.
 (* e is a notification showing the option values sn together with the updated-set u *)
 Definition shows (sn : snap) (u : list name) (e : event) : Prop :=
-  exists l ok, e = Notified l sn u ok.
+  exists l k, e = Notified l sn u k.
 Fixpoint listeners (evs : list event) : list N :=
   match evs with
   | [] => []
@@ -259,9 +260,13 @@ Proof.
 Qed.
 
 Section Signals.
-  Variable behave : N -> state -> list name -> bool.
+  Variable behave : N -> state -> list name -> reaction.
+  Variable nested : list (name * val) -> state -> state * result.
 
-  (* a signal never touches anything but the log *)
+  (* listeners that never re-enter the manager *)
+  Definition non_reentrant : Prop := forall l s u kw, behave l s u <> Nested kw.
+
+  (* a signal sent to such listeners never touches anything but the log *)
   Definition same_static (s s' : state) : Prop :=
     options s' = options s /\ deferred s' = deferred s
     /\ subscriptions s' = subscriptions s /\ receivers s' = receivers s.
@@ -269,52 +274,45 @@ Section Signals.
   Lemma same_static_refl s : same_static s s.
   Proof. repeat split. Qed.
 
-  Lemma same_static_trans a b c : same_static a b -> same_static b c -> same_static a c.
-  Proof. unfold same_static; intuition congruence. Qed.
-
   (* the events of one send, newest first: every one shows the values at the time of the send and the same
      updated-set; if all accept, exactly the listeners ls were called, in order; otherwise a prefix of them,
      the last of which (the newest event) refused *)
-  Lemma notify_spec ls : forall u s s' ok,
-    notify behave ls u s = (s', ok) ->
+  Lemma notify_spec (NR : non_reentrant) ls : forall u s s' r,
+    notify behave nested ls u s = (s', r) ->
     exists evs, log s' = evs ++ log s /\ same_static s s'
       /\ Forall (shows (snapshot (options s)) u) evs
-      /\ (ok = true -> rev (listeners evs) = ls /\ forallb ev_ok evs = true)
-      /\ (ok = false -> exists pre rest e tl, ls = pre ++ rest /\ evs = e :: tl
+      /\ (r = NOk -> rev (listeners evs) = ls /\ forallb ev_ok evs = true)
+      /\ (r <> NOk -> r = NRaised EOptionsError /\ exists pre rest e tl, ls = pre ++ rest /\ evs = e :: tl
             /\ rev (listeners evs) = pre /\ ev_ok e = false /\ forallb ev_ok tl = true).
   Proof.
-    induction ls as [|l t IH]; simpl; intros u s s' ok H.
-    - inversion H; subst. exists []. repeat split; try discriminate; constructor.
-    - destruct (behave l s u) eqn:B.
+    induction ls as [|l t IH]; simpl; intros u s s' r H.
+    - inversion H; subst. exists []. repeat split; try congruence; constructor.
+    - destruct (behave l s u) as [| |kw] eqn:B.
       + apply IH in H as [evs [Hlog [Hst [Hsh [Hok Hno]]]]].
-        exists (evs ++ [Notified l (snapshot (options s)) u true]).
+        exists (evs ++ [Notified l (snapshot (options s)) u KAccept]).
         simpl in *. split; [rewrite Hlog, <- app_assoc; reflexivity|].
         split; [unfold same_static in *; simpl in *; intuition|].
-        split; [apply Forall_app; split; [exact Hsh | constructor; [now exists l, true | constructor]]|].
+        split; [apply Forall_app; split; [exact Hsh | constructor; [now exists l, KAccept | constructor]]|].
         split.
         * intros Hk. destruct (Hok Hk) as [H1 H2]. rewrite listeners_app, rev_app_distr; simpl.
           rewrite H1, forallb_app, H2; simpl. split; reflexivity.
-        * intros Hk. destruct (Hno Hk) as [pre [rest [e [tl [E1 [E2 [E3 [E4 E5]]]]]]]].
-          exists (l :: pre), rest, e, (tl ++ [Notified l (snapshot (options s)) u true]).
+        * intros Hk. destruct (Hno Hk) as [Hr [pre [rest [e [tl [E1 [E2 [E3 [E4 E5]]]]]]]]].
+          split; [exact Hr|].
+          exists (l :: pre), rest, e, (tl ++ [Notified l (snapshot (options s)) u KAccept]).
           subst evs.
           split; [simpl; now rewrite E1|].
           split; [reflexivity|].
-          split; [change (e :: tl ++ [Notified l (snapshot (options s)) u true])
-                    with ((e :: tl) ++ [Notified l (snapshot (options s)) u true]);
+          split; [change (e :: tl ++ [Notified l (snapshot (options s)) u KAccept])
+                    with ((e :: tl) ++ [Notified l (snapshot (options s)) u KAccept]);
                   rewrite listeners_app, rev_app_distr, E3; reflexivity|].
           split; [exact E4|].
           rewrite forallb_app, E5; reflexivity.
       + inversion H; subst; clear H.
-        exists [Notified l (snapshot (options s)) u false]. simpl.
+        exists [Notified l (snapshot (options s)) u KReject]. simpl.
         split; [reflexivity|]. split; [repeat split|].
-        split; [constructor; [now exists l, false | constructor]|].
-        split; [discriminate|]. intros _.
-        exists [l], t, (Notified l (snapshot (options s)) u false), []. repeat split.
-  Qed.
-
-  Lemma notify_static ls u s : same_static s (fst (notify behave ls u s)).
-  Proof.
-    destruct (notify behave ls u s) as [s' ok] eqn:E.
-    apply notify_spec in E as [evs [_ [H _]]]. exact H.
+        split; [constructor; [now exists l, KReject | constructor]|].
+        split; [discriminate|]. intros _. split; [reflexivity|].
+        exists [l], t, (Notified l (snapshot (options s)) u KReject), []. repeat split.
+      + exfalso. exact (NR l s u kw B).
   Qed.
 End Signals.
